@@ -129,7 +129,13 @@ TrAdd ==
   /\ LET e == Rec[l] IN
        IF e.len = 0
        THEN /\ AddEmpty(e.id) /\ UNCHANGED lens
-            /\ Emit((IF e.res = "err" THEN {} ELSE {"C19:empty_content_not_refused"}) \cup CountsTagsP(e))
+            /\ LET hit == {p \in abs : p[1] = e.id}
+                   unchanged == /\ CountsTagsP(e) = {}
+                                /\ (Has(e, "after_n") => /\ e.after_n = Cardinality(abs)
+                                                         /\ IF hit = {} THEN e.after_res = "none"
+                                                            ELSE e.after_res = "some" /\ <<e.id, e.after_tok>> \in abs)
+               IN Emit((IF e.res = "err" THEN {} ELSE {"C19:empty_content_not_refused"})
+                       \cup (IF unchanged THEN {} ELSE {"C19:refused_add_changed_the_archive"}))
        ELSE /\ AddTile(e.id, e.tok) /\ lens' = (e.tok :> e.len) @@ lens
             /\ Emit((IF e.res = "ok" THEN {} ELSE {"C04:add_failed"}) \cup CountsTagsP(e))
   /\ UNCHANGED <<cfg, saved, cur>>
